@@ -5,6 +5,8 @@ import SalsaVerif.Drive.Lru
 import SalsaVerif.Drive.Intern
 import SalsaVerif.Drive.SyncDG
 import SalsaVerif.Drive.Core
+import SalsaVerif.Drive.Cancel
+import SalsaVerif.Drive.Alloc
 
 /-! `svdriver <model>` — reads an op file on stdin, prints one line per op. -/
 def main (args : List String) : IO UInt32 := do
@@ -16,6 +18,8 @@ def main (args : List String) : IO UInt32 := do
   | ["rq"] => SalsaVerif.Drive.Intern.mainRq; return 0
   | ["intern"] => SalsaVerif.Drive.Intern.mainIntern; return 0
   | ["core"] => SalsaVerif.Drive.Core.main; return 0
+  | ["cancel"] => SalsaVerif.Drive.Cancel.main; return 0
+  | ["alloc"] => SalsaVerif.Drive.Alloc.main; return 0
   | _ =>
-    IO.eprintln "usage: svdriver <model>  (models: edges, cycle, dg, lru, rq, intern, core)"
+    IO.eprintln "usage: svdriver <model>  (models: edges, cycle, dg, lru, rq, intern, core, cancel, alloc)"
     return 2
